@@ -58,7 +58,7 @@ func c12Program(run *common.Run, prog int, engine string, idx int) {
 		run.Violation("prog", idx, what, map[string]any{"engine": engine, "steps": steps})
 	}
 	var sawTrue, sawFalse, sawReject, sawEmptyMatch bool
-	keys := gen.Keys[:4]
+	keys := []string{"a", "a\x00", "a\nb", "ab"}
 	n := r.Range(15, 40)
 	for s := 0; s < n; s++ {
 		key := common.Pick(r, keys)
